@@ -731,6 +731,14 @@ class Codec:
             return None
         if isinstance(t, N):
             d0, _ = self.env.lookup(t)
+            if isinstance(d0, En) and d0.flags:
+                # several symbol lists can denote one value (overlapping symbols): the written form must be a list of declared symbols or an
+                # integer that denotes the value written
+                try:
+                    gv, rv = self.enum_from_json(d0, got), self.enum_from_json(d0, ref)
+                except CodecError as e:
+                    return "%s: not a flags value: %s" % (path, e)
+                return None if gv == rv else "%s: flags value %r denotes %d, written was %d" % (path, got, gv, rv)
             if isinstance(d0, Rec):
                 if not isinstance(got, dict) or not isinstance(ref, dict):
                     return "%s: expected object, got %s" % (path, self._kind_of(got))
